@@ -2,6 +2,7 @@ package storagesc
 
 import (
 	"encoding/json"
+	"errors"
 	"time"
 
 	"0chain.net/chaincore/block"
@@ -157,16 +158,30 @@ func (w *vWorld) vWAlloc(owner, ownerPK string, lock currency.Coin, readPrice cu
 	req := newAllocationRequest{DataShards: 1, ParityShards: 1, Size: 2 * vWGB, Owner: owner, OwnerPublicKey: ownerPK,
 		Blobbers: vWBlobbers[:2], BlobberAuthTickets: []string{"", ""},
 		ReadPriceRange: PriceRange{Min: 0, Max: 100 * x10}, WritePriceRange: PriceRange{Min: 0, Max: 100 * x10}}
+	_ = req
+	t := &transaction.Transaction{}
+	t.ToClientID = ADDRESS
+	t.CreationDate = vWNow
+	t.Hash = "a110c00000000000000000000000000000000000000000000000000000000001"
+	return w.vWAllocAs(t, owner, ownerPK, lock)
+}
+
+var errRecovered = errors.New("recovered")
+
+func int64ToTS(i int) common.Timestamp { return common.Timestamp(i) }
+
+// vWAllocAs sends new_allocation_request with transaction t (hash = allocation id) on
+// w.balances; panics when the request is rejected.
+func (w *vWorld) vWAllocAs(t *transaction.Transaction, owner, ownerPK string, lock currency.Coin) string {
+	req := newAllocationRequest{DataShards: 1, ParityShards: 1, Size: 2 * vWGB, Owner: owner, OwnerPublicKey: ownerPK,
+		Blobbers: vWBlobbers[:2], BlobberAuthTickets: []string{"", ""},
+		ReadPriceRange: PriceRange{Min: 0, Max: 100 * x10}, WritePriceRange: PriceRange{Min: 0, Max: 100 * x10}}
 	input, err := json.Marshal(&req)
 	if err != nil {
 		panic(err)
 	}
-	t := &transaction.Transaction{}
 	t.ClientID = owner
-	t.ToClientID = ADDRESS
 	t.Value = lock
-	t.CreationDate = vWNow
-	t.Hash = "a110c00000000000000000000000000000000000000000000000000000000001"
 	if _, err := w.ssc.newAllocationRequest(t, input, w.balances, nil); err != nil {
 		panic("world: new allocation: " + err.Error())
 	}
